@@ -681,8 +681,8 @@ enum Op {
     ChangeContent(u32, u8),
     AddContents(u32, u8),
     AddToContent(u32),
-    AddXObject(u32, Vec<u8>, Id),
-    AddGState(u32, Vec<u8>, Id),
+    AddXObject(u32, String, Id),
+    AddGState(u32, String, Id),
     InsertImage(u32),
     InsertForm(u32),
     AddBookmark(u8),
@@ -707,13 +707,23 @@ fn ops_for(s: &Seed) -> Vec<Op> {
     v.push(Op::AddContents(1, 1));
     v.push(Op::AddContents(9, 0));
     v.push(Op::AddToContent(np));
-    for p in 1..=np { v.push(Op::AddXObject(p, b"X9".to_vec(), s.res_target)); }
-    v.push(Op::AddXObject(1, b"Im0".to_vec(), s.res_target));
-    v.push(Op::AddXObject(9, b"X9".to_vec(), s.res_target));
-    for p in 1..=np { v.push(Op::AddGState(p, b"GS9".to_vec(), s.res_target)); }
+    for p in 1..=np { v.push(Op::AddXObject(p, "X9".into(), s.res_target)); }
+    v.push(Op::AddXObject(1, "Im0".into(), s.res_target));
+    v.push(Op::AddXObject(9, "X9".into(), s.res_target));
+    for p in 1..=np { v.push(Op::AddGState(p, "GS9".into(), s.res_target)); }
     for p in 1..=np { v.push(Op::InsertImage(p)); }
     for p in 1..=np { v.push(Op::InsertForm(p)); }
     v.extend([Op::AddBookmark(0), Op::AddBookmark(1), Op::BuildOutline, Op::Save]);
+    v
+}
+
+/// one concrete call per public editing function (used for the longer sequences of the thorough tier)
+fn core_ops(s: &Seed) -> Vec<Op> {
+    let np = s.pages.len() as u32;
+    let mut v = vec![Op::NewId, Op::Add(1), Op::AllocSet, Op::Replace(s.rep[0]), Op::Delete(s.del[0])];
+    if let Some(a) = s.ann.first() { v.push(Op::RemoveAnnot(*a)); }
+    v.extend([Op::Prune, Op::DeletePages(vec![1]), Op::Renumber, Op::Compress, Op::Decompress, Op::ChangeContent(1, 1), Op::AddContents(1, 0), Op::AddToContent(np),
+        Op::AddXObject(1, "X9".into(), s.res_target), Op::AddGState(1, "GS9".into(), s.res_target), Op::InsertImage(1), Op::InsertForm(1), Op::AddBookmark(0), Op::BuildOutline, Op::Save]);
     v
 }
 
@@ -737,8 +747,8 @@ fn op_json(op: &Op) -> Value {
         Op::ChangeContent(p, w) => json!({"op": "ChangeContent", "page": p, "k": w}),
         Op::AddContents(p, w) => json!({"op": "AddContents", "page": p, "k": w}),
         Op::AddToContent(p) => json!({"op": "AddToContent", "page": p}),
-        Op::AddXObject(p, n, t) => json!({"op": "AddXObject", "page": p, "name": hex(n), "id": idj(*t)}),
-        Op::AddGState(p, n, t) => json!({"op": "AddGState", "page": p, "name": hex(n), "id": idj(*t)}),
+        Op::AddXObject(p, n, t) => json!({"op": "AddXObject", "page": p, "name": hex(n.as_bytes()), "id": idj(*t)}),
+        Op::AddGState(p, n, t) => json!({"op": "AddGState", "page": p, "name": hex(n.as_bytes()), "id": idj(*t)}),
         Op::InsertImage(p) => json!({"op": "InsertImage", "page": p}),
         Op::InsertForm(p) => json!({"op": "InsertForm", "page": p}),
         Op::AddBookmark(k) => json!({"op": "AddBookmark", "k": k}),
@@ -766,8 +776,8 @@ fn op_from_json(v: &Value) -> Option<Op> {
         "ChangeContent" => Op::ChangeContent(p, k),
         "AddContents" => Op::AddContents(p, k),
         "AddToContent" => Op::AddToContent(p),
-        "AddXObject" => Op::AddXObject(p, unhex(v["name"].as_str()?), idv(&v["id"])),
-        "AddGState" => Op::AddGState(p, unhex(v["name"].as_str()?), idv(&v["id"])),
+        "AddXObject" => Op::AddXObject(p, String::from_utf8_lossy(&unhex(v["name"].as_str()?)).to_string(), idv(&v["id"])),
+        "AddGState" => Op::AddGState(p, String::from_utf8_lossy(&unhex(v["name"].as_str()?)).to_string(), idv(&v["id"])),
         "InsertImage" => Op::InsertImage(p),
         "InsertForm" => Op::InsertForm(p),
         "AddBookmark" => Op::AddBookmark(k),
@@ -839,8 +849,8 @@ fn apply(d: &mut Document, op: &Op, pages: &[Id]) -> Out {
         Op::ChangeContent(p, k) => es(d.change_page_content(pg(pages, *p), content_arg(*k))),
         Op::AddContents(p, k) => es(d.add_page_contents(pg(pages, *p), append_arg(*k))),
         Op::AddToContent(p) => es(d.add_to_page_content(pg(pages, *p), Content { operations: vec![Operation::new("q", vec![]), Operation::new("Q", vec![])] })),
-        Op::AddXObject(p, n, t) => es(d.add_xobject(pg(pages, *p), n.clone(), *t)),
-        Op::AddGState(p, n, t) => es(d.add_graphics_state(pg(pages, *p), n.clone(), *t)),
+        Op::AddXObject(p, n, t) => es(d.add_xobject(pg(pages, *p), n.as_bytes().to_vec(), *t)),
+        Op::AddGState(p, n, t) => es(d.add_graphics_state(pg(pages, *p), n.as_bytes().to_vec(), *t)),
         Op::InsertImage(p) => es(d.insert_image(pg(pages, *p), image_stream(), (5.0, 5.0), (10.0, 10.0))),
         Op::InsertForm(p) => es(d.insert_form_object(pg(pages, *p), form_stream())),
         Op::AddBookmark(k) => {
@@ -1140,7 +1150,7 @@ fn step(pre: &State, op: &Op) -> StepResult {
                         Ok(Err(e)) => fails.push(("save-reload".into(), format!("the saved file does not load: {}", e))),
                         Ok(Ok(l)) => {
                             for (id, o) in predoc.objects.iter() {
-                                if crate::gen::is_bookkeeping_object(o) { continue; }
+                                if crate::gen::is_bookkeeping_object(o) || !reach.contains(id) { continue; }
                                 let same = match (o, l.objects.get(id)) {
                                     (Object::Stream(a), Some(Object::Stream(b))) => a.content == b.content && dict_eq(&a.dict, &b.dict, &[b"Length"]),
                                     (a, Some(b)) => obj_eq(a, b),
@@ -1401,7 +1411,7 @@ impl Local {
     }
 }
 
-struct Ctx<'a> { seed: &'a Seed, loaded: bool, start_index: usize, ops: &'a [Op], docj: &'a Value }
+struct Ctx<'a> { seed: &'a Seed, loaded: bool, start_index: usize, ops: &'a [Op], docj: &'a Value, count_from: usize }
 
 fn explore(st: &State, depth_left: usize, path: &mut Vec<usize>, prior: usize, ctx: &Ctx, loc: &mut Local) {
     for i in 0..ctx.ops.len() { node(st, i, depth_left, path, prior, ctx, loc); }
@@ -1410,13 +1420,14 @@ fn explore(st: &State, depth_left: usize, path: &mut Vec<usize>, prior: usize, c
 fn node(st: &State, i: usize, depth_left: usize, path: &mut Vec<usize>, prior: usize, ctx: &Ctx, loc: &mut Local) {
     path.push(i);
     let r = step(st, &ctx.ops[i]);
-    loc.evals += 1;
-    if r.changed { loc.nontrivial += 1; }
-    if loc.samples.is_empty() && path.len() >= 2 && r.changed {
+    let counted = path.len() >= ctx.count_from;
+    if counted { loc.evals += 1; if r.changed { loc.nontrivial += 1; } }
+    if loc.samples.is_empty() && path.len() >= 2 && r.changed && (path[0] * 31 + i * 7 + ctx.start_index) % 23 == 5 {
         loc.samples.push(format!("seed {} ({}): {:?}", ctx.seed.name, if ctx.loaded { "loaded from its saved file" } else { "generated" }, path.iter().map(|k| &ctx.ops[*k]).collect::<Vec<_>>()));
     }
     let failed = !r.fails.is_empty();
     for (ob, det) in r.fails {
+        if !counted { continue; }
         if DEBUG.load(std::sync::atomic::Ordering::Relaxed) && prior == 0 {
             let e = loc.sigs.entry(ob.clone()).or_default();
             if e.len() < 400 { e.insert(format!("{} last={:?} :: {}", ctx.seed.name, ctx.ops[i], det.chars().take(260).collect::<String>())); }
@@ -1435,18 +1446,21 @@ fn node(st: &State, i: usize, depth_left: usize, path: &mut Vec<usize>, prior: u
     path.pop();
 }
 
+const LONG: usize = 4;
+
 pub fn run(thorough: bool) -> Report {
     let depth = if thorough { 3 } else { 2 };
     let all = seeds();
     let nops: Vec<usize> = all.iter().map(|s| ops_for(s).len()).collect();
     let bound = format!(
-        "all call sequences of length 1..={} over a per-seed alphabet of {}..{} concrete calls (new_object_id; add_object x2; new_object_id+set_object; set_object above max_id; set_object on 1-3 existing ids; \
+        "{}all call sequences of length 1..={} over a per-seed alphabet of {}..{} concrete calls (new_object_id; add_object x2; new_object_id+set_object; set_object above max_id; set_object on 1-3 existing ids; \
 delete_object on 3-7 ids incl. content streams, shared/duplicated entries, resource dictionaries, pages, the catalog, trailer- and stream-dictionary-referenced, unreachable and absent ids; remove_object on 0-3 ids; prune_objects; \
 delete_pages [1],[2],[1,2],[1,1],[0,9],[3,1]; renumber_objects; compress; decompress; change_page_content / add_page_contents per page with short and compressible data and on an absent page; add_to_page_content; \
 add_xobject / add_graphics_state per page with new and existing names and on an absent page; insert_image, insert_form_object per page; add_bookmark x2; build_outline; save_to + reload) \
 on 7 seed documents of 8-18 objects (flat and nested page trees, sparse/high ids, generation 2, max_id slack, inherited/own/shared/indirect resources, Contents as reference/array/empty array/reference to array/absent, \
 Flate/ASCII85/empty-filter-array/DCT/indirect-Length streams, duplicate and shared annotations, Annots absent/direct/indirect, dangling and cyclic references, unreachable objects, registered bookmarks), \
 each seed once as generated and once as loaded from its own saved file; every step of every sequence checked against the pre-state; structures are small and acyclic in depth, so no call can recurse unboundedly (no child process used)",
+        if thorough { "all call sequences of length 4 over a reduced alphabet of 20-21 calls (one concrete call per editing function, without set_object above max_id), and " } else { "" },
         depth, nops.iter().min().unwrap(), nops.iter().max().unwrap());
     let mut rep = Report::new(&bound, true);
     let prev = std::panic::take_hook();
@@ -1471,16 +1485,27 @@ each seed once as generated and once as loaded from its own saved file; every st
     }
     let opsets: Vec<Vec<Op>> = all.iter().map(ops_for).collect();
     let docjs: Vec<Value> = all.iter().map(|s| doc_json(&s.doc, &s.bookmarks)).collect();
-    let mut tasks: Vec<(usize, usize, bool, usize)> = vec![];
-    for (k, (si, loaded)) in starts.iter().enumerate() { for i in 0..opsets[*si].len() { tasks.push((k, *si, *loaded, i)); } }
-    let locals: Vec<Local> = tasks.par_iter().map(|(k, si, loaded, i)| {
+    let coresets: Vec<Vec<Op>> = all.iter().map(core_ops).collect();
+    // (start, seed, loaded, first call, long phase)
+    let mut tasks: Vec<(usize, usize, bool, usize, bool)> = vec![];
+    for (k, (si, loaded)) in starts.iter().enumerate() {
+        for i in 0..opsets[*si].len() { tasks.push((k, *si, *loaded, i, false)); }
+        if thorough { for i in 0..coresets[*si].len() { tasks.push((k, *si, *loaded, i, true)); } }
+    }
+    let locals: Vec<Local> = tasks.par_iter().map(|(k, si, loaded, i, long_phase)| {
         let mut loc = Local::default();
         let s = &all[*si];
         match start_state(&s.doc, &s.bookmarks, *loaded) {
             Ok(st) => {
-                let ctx = Ctx { seed: s, loaded: *loaded, start_index: *k, ops: &opsets[*si], docj: &docjs[*si] };
                 let mut path = vec![];
-                node(&st, *i, depth, &mut path, 0, &ctx, &mut loc);
+                if *long_phase {
+                    // sequences of exactly LONG calls over the reduced alphabet; shorter ones are part of the full-alphabet family
+                    let ctx = Ctx { seed: s, loaded: *loaded, start_index: *k, ops: &coresets[*si], docj: &docjs[*si], count_from: LONG };
+                    node(&st, *i, LONG, &mut path, 0, &ctx, &mut loc);
+                } else {
+                    let ctx = Ctx { seed: s, loaded: *loaded, start_index: *k, ops: &opsets[*si], docj: &docjs[*si], count_from: 1 };
+                    node(&st, *i, depth, &mut path, 0, &ctx, &mut loc);
+                }
             }
             Err(e) => loc.add("seed-start", e, (0, 0, *k, vec![]), || json!({"seed_check": s.name, "loaded": loaded})),
         }
@@ -1491,7 +1516,7 @@ each seed once as generated and once as loaded from its own saved file; every st
 
     rep.evaluations = total.evals;
     rep.nontrivial = total.nontrivial;
-    rep.obligations = 22;
+    rep.obligations = 28;
     for s in total.samples { rep.sample(s); }
     let mut recs: Vec<FailRec> = total.fails.into_values().flatten().collect();
     recs.sort_by(|a, b| (a.obligation.as_str(), &a.key).cmp(&(b.obligation.as_str(), &b.key)));
